@@ -442,11 +442,16 @@ func (rd *remoteDelivery) Commit(ctx context.Context) error {
 }
 
 func (rd *remoteDelivery) Close() error {
+	// Connections used by a message that had the security policies disabled
+	// (TLS-Required: No) were not checked against them and must not be reused
+	// by messages the policies apply to.
+	policiesOverridden := rd.msgMeta.TLSRequireOverride && rd.rt.allowSecOverride
+
 	for _, conn := range rd.connections {
 		rd.rt.limits.ReleaseDest(conn.domain)
 		conn.transactions++
 
-		if !conn.Usable() {
+		if !conn.Usable() || policiesOverridden {
 			rd.Log.Debugf("disconnected %v from %s (errored=%v,transactions=%v,disconnected before=%v)",
 				conn.LocalAddr(), conn.ServerName(), conn.errored, conn.transactions, conn.C.Client() == nil)
 			conn.Close()
